@@ -195,6 +195,28 @@ ROUND4 = {'C01': 'Round 4: the drag obtained in the loop is also checked against
 
 NOT_YET = {}
 
+ROUND5 = {'C01': 'Round 5: C01.step_in_loop - every integration step the real loop takes on carriers (real atmosphere, stateless drag look-up, wind of the segment containing the start of the step, calm beyond the last) recomputed from its recorded start state; symbolic range.',
+ 'C02': 'Round 5: C02.reach (TEST strength) - a slow projectile zeroed up to near its maximum range on level and inclined sight lines, precondition established natively; five inputs on which the search does not converge although the target is within reach are KNOWN FINDINGS (known_findings.json), any other failing input is reported.',
+ 'C03': 'Round 5: the carrier\'s calculator has produced a card with extra data and a time step before the card that is checked.',
+ 'C04': 'Round 5: C04.history - symbolic-range fire on a calculator with tight limits after an earlier failed / successful zeroing or a fire cut short, compared with a fresh calculator of the same configuration.',
+ 'C05': 'Round 5: C05.spin with powder sensitivity in force (the Miller formula sees the launch velocity).',
+ 'C06': 'Round 5: a conversion entry point that raises on a valid unit is reported (operation_raised) instead of stopping the run.',
+ 'C07': 'Round 5: the global step given as a bare number, then the preferred unit changed, then a calculator created; no private global of the package is read or written by the harnesses.',
+ 'C08': 'Round 5: C08.standard_twice - the standard atmosphere requested again (icao / standard / default of a new Shot) after the first object was modified by its owner.',
+ 'C09': 'Round 5: C09.shared_points - one list of DragDataPoint objects used for a plain model, a multi-BC model and a plain model again.',
+ 'C10': 'Round 5: C10.footprint also snapshots the scalar class attributes of every class of the package, builds an unrelated vacuum shot / modified standard atmosphere / multi-BC model along the way, and its threads fire different shots.',
+ 'C11': 'Round 5: with a time step short enough to put clock rows between distance rows, the rows recorded by distance are exactly those of the request without a time step.',
+ 'C12': 'Round 5: two of the winds given are the same wind over different stretches.',
+ 'C13': 'Round 5: the foreign unit CALLED on the quantity (Unit.X(q), PreferredUnits.<slot>(q)) and read back.',
+ 'C14': 'Round 5: quick tier includes shapes (4,2) and (3,3): several BC points inside one table interval.',
+ 'C15': 'Round 5: the calculator has served a supersonic shot just before; the events-only request (record step 0) through TrajectoryCalc.trajectory reports the same events within the range.',
+ 'C16': 'Round 5: pure event rows (no RANGE bit) at every position; C16.successive - six result objects created, asked and released in turn (list free-list drained so that the address is reused).',
+ 'C17': 'Round 5: stated velocity and modifier re-stated on the same Ammo while sensitivity is enabled.',
+ 'C18': 'Round 5: unit names through the configuration-file door (real _load_config, TOML reader stubbed to return the symbolic spelling); calculators first touched after later sets / resets of the global step; precompiled re.Pattern globals are wrapped by the string stub.',
+ 'C19': 'Round 5: target distance exactly 0 for FFP / LWIR.',
+ 'C20': 'Round 5: the same result object asked again after the preferred distance unit changed.'}
+
+
 def main():
     props = [json.loads(l)['id'] for l in open(os.path.join(HERE, 'properties.jsonl'))]
     checks = []
@@ -210,7 +232,7 @@ def main():
             'replay_cmd_template': f'./check {pid} --replay {{path}}',
             'engine': 'symx',
             'level_claimed': {'category': 'other', 'text': c['text'], 'design_ref': c['ref']},
-            'level_note': c['note'] + (' ' + ALSO[pid] if pid in ALSO else '') + (' ' + ROUND4[pid] if pid in ROUND4 else ''),
+            'level_note': c['note'] + (' ' + ALSO[pid] if pid in ALSO else '') + (' ' + ROUND4[pid] if pid in ROUND4 else '') + (' ' + ROUND5[pid] if pid in ROUND5 else ''),
             'technique': c.get('technique', TECH),
         })
     na = []
